@@ -147,7 +147,11 @@ func c06Value(d Directive, v *Val, wi int, seen func(string)) string {
 			if w.Outer == 1 {
 				want = Esc(raw) // own markers escaped like plain data
 			}
-			if got := Strip(o); !bytes.Equal(got, want) {
+			got := Strip(o)
+			if invalidTail(want) && bytes.Equal(got, append(append([]byte{}, want...), '?')) {
+				got = want // the end-of-output guard after a truncated sequence (C10) is not a character of the operand
+			}
+			if !bytes.Equal(got, want) {
 				return fmt.Sprintf("%s = %q: characters %q, want %q", desc, out, got, want)
 			}
 		}
@@ -352,6 +356,7 @@ func c06After(ci, hi int, verb string) string {
 }
 
 func checkC06(c *Ctx) {
+	npSection(c, "C06", 3)
 	rfmt.VerifResetSafeTypes()
 	dblSafeRegister()
 	redact.RegisterSafeType(reflect.TypeOf(regIntT(0)))
